@@ -37,7 +37,15 @@ def main():
                 pf.append("leanchecker rejected " + " ".join(lc["modules"]) + ": " + lc["output_tail"][-200:])
         cov = core.start_source_coverage(prop, tier)
         try:
-            mod.run(ctx)
+            try:
+                mod.run(ctx)
+            except core.Infra as e:
+                # a degenerate input distribution (no drift reached, no case of some kind) is infrastructure trouble — unless the run has
+                # already found concrete failing inputs / mismatches: a changed detector that rejects valid calls or never alarms makes the
+                # distribution degenerate *because* it is broken, and what was found must be reported, not hidden behind exit 2
+                if not (core.unknown_failing(ctx) or ctx.mismatches):
+                    raise
+                ctx.extra["degenerate_distribution_after_findings"] = str(e)
             core.extra_seeds_if_source_changed(ctx, mod, prop)
         finally:
             core.stop_source_coverage(cov, ctx, prop)
